@@ -106,6 +106,7 @@ func init() { h.RegisterReplayer("c04-disc", evalC04Disc) }
 func C04(tier string) int {
 	run := h.NewRun("C04", tier, "model_checking", "", 25*time.Minute)
 	c04Seq(run, tier)
+	c04Sched(run, tier)
 	return run.Finish()
 }
 
